@@ -368,6 +368,12 @@ func newEnv(thorough bool) *env {
 	add("{1:2.0}", mkDict(one, starlark.Float(2)), "")
 	add("{1:2,'a':1}", mkDict(one, two, sa, one), "")
 	add("{'a':1,1:2}", mkDict(sa, one, one, two), "")
+	// keys nested close to the comparison depth limit: comparing the collections looks the keys up
+	for _, d := range []int{L - 3, L - 2, L - 1} {
+		add(fmt.Sprintf("{tuple^%d(1):2}", d), mkDict(nestTuple(d, one), two), "")
+		add(fmt.Sprintf("{tuple^%d(1.0):2}", d), mkDict(nestTuple(d, onef), two), "")
+		add(fmt.Sprintf("set([tuple^%d(1)])", d), mkSet(nestTuple(d, one)), "")
+	}
 	add("set()", mkSet(), "")
 	add("set([1])", mkSet(one), "")
 	add("set([1.0])", mkSet(onef), "")
@@ -642,7 +648,9 @@ func (e *env) checkPair(i, j int) {
 				n++
 			}
 		}
-		if n != 1 {
+		// (sets are ordered by inclusion, a partial order: two sets may be unrelated)
+		bothSets := x.V.Type() == "set" && y.V.Type() == "set"
+		if n != 1 && !(bothSets && n == 0) {
 			e.violate("exactly-one-of-lt-eq-gt", i, j, -1, fmt.Sprintf("< %d, == %d, > %d", lt, eq, gt))
 		}
 		if (le == 1) != (lt == 1 || eq == 1) || (ge == 1) != (gt == 1 || eq == 1) {
